@@ -104,7 +104,16 @@ impl<'t, 'a> Gen<'t, 'a> {
             b.push(("deps".into(), vec![Piece::Lit(["gcc", "msvc"][self.t.below(2)].into())]));
         }
         if self.t.chance(20) {
-            b.push(("pool".into(), vec![Piece::Lit(["link", "console", "p0"][self.t.below(3)].into())]));
+            if self.t.chance(40) {
+                // a pool chosen per build statement through a variable
+                let mut v = vec![Piece::Var(self.var_name())];
+                if self.t.chance(30) {
+                    v.push(Piece::Lit("_pool".into()));
+                }
+                b.push(("pool".into(), v));
+            } else {
+                b.push(("pool".into(), vec![Piece::Lit(["link", "console", "p0"][self.t.below(3)].into())]));
+            }
         }
         if self.t.chance(20) {
             b.push(("rspfile".into(), self.value(true)));
